@@ -124,11 +124,11 @@ type AlgCase struct {
 	Out  string
 	Err  string
 	// for the algebra monitors
-	Kind       string
-	A, B       []int
-	Ls         [][]int
-	Res        []int
-	ResB       bool
+	Kind string
+	A, B []int
+	Ls   [][]int
+	Res  []int
+	ResB bool
 }
 
 var parseMach *am.Machine
